@@ -148,10 +148,11 @@ type Spec struct {
 	Limit time.Duration
 
 	// hedge
-	MaxHedges int
-	HDelay    time.Duration
-	HDelays   []time.Duration // non-nil: a delay function; hedge k of an execution is started HDelays[k-1] after the previous attempt (last value repeated)
-	Cancel    []Cond
+	MaxHedges  int
+	HDelay     time.Duration
+	DelayByErr bool            // breaker: a delay function answers BDelay when the failure that opens it is E1, else 1ns
+	HDelays    []time.Duration // non-nil: a delay function; hedge k of an execution is started HDelays[k-1] after the previous attempt (last value repeated)
+	Cancel     []Cond
 
 	// fallback
 	FbV    int
@@ -200,6 +201,9 @@ func (s Spec) String() string {
 		}
 		if s.Pre != "" {
 			x += "," + s.Pre
+		}
+		if s.DelayByErr {
+			return x + fmt.Sprintf(",delay=%v if E1 else 1ns)", s.BDelay)
 		}
 		return x + fmt.Sprintf(",delay=%v)", s.BDelay)
 	case KLimiter:
@@ -652,6 +656,16 @@ func (env *Env) build(i int, s Spec) failsafe.Policy[int] {
 		}
 		if s.BDelay != 0 {
 			b = b.WithDelay(s.BDelay)
+		}
+		if s.DelayByErr {
+			// Retry-After style: the delay depends on the failure that opens the breaker
+			long := s.BDelay
+			b = b.WithDelayFunc(func(e failsafe.ExecutionAttempt[int]) time.Duration {
+				if e.LastError() == E1 {
+					return long
+				}
+				return 1
+			})
 		}
 		b = b.OnSuccess(env.attemptEv(i, "success")).OnFailure(env.attemptEv(i, "failure")).
 			OnOpen(env.stateEv(i, "open")).OnClose(env.stateEv(i, "close")).OnHalfOpen(env.stateEv(i, "halfopen")).OnStateChanged(env.stateEv(i, "changed"))
